@@ -63,8 +63,8 @@ fn op() -> BoxedStrategy<Op> {
     prop_oneof![
         6 => mv.prop_map(Op::Advance),
         8 => (which(), 0u8..6, 1u8..4).prop_map(|(which, caller, times)| Op::Create { which, caller, times }),
-        1 => (0u8..3).prop_map(|idx| Op::AddHook { idx }),
-        1 => (0u8..3).prop_map(|idx| Op::RemoveHook { idx }),
+        1 => prop_oneof![6 => 0u8..3, 1 => Just(3u8)].prop_map(|idx| Op::AddHook { idx }),
+        1 => prop_oneof![3 => 0u8..3, 2 => Just(3u8)].prop_map(|idx| Op::RemoveHook { idx }),
     ]
     .boxed()
 }
@@ -114,6 +114,10 @@ impl EpochWorld {
                 .instantiate(hcode, &owner, &HookInit { fail: false }, &format!("hook{i}"), None)?;
             hooks.push(h);
         }
+        // a fourth hook that fails on every notification: while it is registered no epoch can be
+        // created (a hook that is not notified means no new epoch), atomically
+        let h = bw.w.instantiate(hcode, &owner, &HookInit { fail: true }, "hook_failing", None)?;
+        hooks.push(h);
         Ok(EpochWorld { bw, manager, hooks })
     }
 
@@ -157,7 +161,7 @@ impl Check for EpochClocks {
         let genesis = START_TIME_S * 1_000_000_000 + c.genesis_offset_ns;
         let dur = c.duration_ns;
         let owner = ew.bw.w.owner.clone();
-        let mut registered = [false; 3];
+        let mut registered = [false; 4];
         for i in 0..(c.initial_hooks.min(3) as usize) {
             let m = ew.manager.clone();
             let h = ew.hooks[i].to_string();
@@ -205,7 +209,7 @@ impl Check for EpochClocks {
                     }
                 }
                 Op::AddHook { idx } => {
-                    let i = (*idx % 3) as usize;
+                    let i = (*idx % 4) as usize;
                     let m = ew.manager.clone();
                     let h = ew.hooks[i].to_string();
                     if ew.bw.w.exec(&owner, &m, &em::ExecuteMsg::AddHook { contract_addr: h }, &[]).is_ok() {
@@ -213,7 +217,7 @@ impl Check for EpochClocks {
                     }
                 }
                 Op::RemoveHook { idx } => {
-                    let i = (*idx % 3) as usize;
+                    let i = (*idx % 4) as usize;
                     let m = ew.manager.clone();
                     let h = ew.hooks[i].to_string();
                     if ew.bw.w.exec(&owner, &m, &em::ExecuteMsg::RemoveHook { contract_addr: h }, &[]).is_ok() {
@@ -231,14 +235,19 @@ impl Check for EpochClocks {
                         let snap = ew.bw.w.snapshot();
                         match which {
                             Which::Manager => {
-                                let expect = now >= mgr.start_ns && now - mgr.start_ns >= dur;
+                                let due = now >= mgr.start_ns && now - mgr.start_ns >= dur;
+                                let expect = due && !registered[3];
+                                if due && registered[3] {
+                                    rec.class("manager_create_with_failing_hook");
+                                }
                                 let m = ew.manager.clone();
                                 let r = ew.bw.w.exec(&who, &m, &em::ExecuteMsg::CreateEpoch {}, &[]);
                                 ensure!(
                                     r.is_ok() == expect,
-                                    "step {step}: manager CreateEpoch at {now} (current epoch {} started {}, duration {dur}) was {} but the reference clock says {}",
+                                    "step {step}: manager CreateEpoch at {now} (current epoch {} started {}, duration {dur}, failing hook registered: {}) was {} but the reference clock says {}",
                                     mgr.id,
                                     mgr.start_ns,
+                                    registered[3],
                                     if r.is_ok() { "accepted" } else { "rejected" },
                                     if expect { "accept" } else { "reject" }
                                 );
